@@ -129,7 +129,7 @@ func (w *world) allocate(username, password string, wantRealm string) (string, *
 		if _, ok := resp.XorAddr(wire.AttrXORRelayedAddress); !ok {
 			return "success-without-relayed-address", resp
 		}
-		if !resp.CheckIntegrity(wire.LongTermKey(username, string(realm), password)) {
+		if password != emptyKeyPassword && !resp.CheckIntegrity(wire.LongTermKey(username, string(realm), password)) {
 			return "success-with-bad-integrity", resp
 		}
 
@@ -230,6 +230,10 @@ outer:
 								{"pass-of-other-secret", c.User, refPassword(b.Secret+"x", c.User)},
 								{"stamp+1-with-genuine-pass", refUsername(b.Kind, stamp+1, b.User), c.Pass},
 								{"plus-sign-stamp-with-genuine-pass", "+" + c.User, c.Pass},
+								// usernames the handler rejects, signed with the empty key (no knowledge of the secret)
+								{"expired-name-empty-key", refUsername(b.Kind, 946684000, b.User), emptyKeyPassword},
+								{"non-numeric-name-empty-key", "x" + c.User, emptyKeyPassword},
+								{"genuine-name-empty-key", c.User, emptyKeyPassword},
 							} {
 								ec.Presented = f[0]
 								out, _ := w.allocate(f[1], f[2], b.Realm)
